@@ -105,6 +105,14 @@ Theorem C06_multi_weighted_states : forall (m1 m2 : mgraph), (TInv m1 /\ TInv m2
 Proof. exact EqualityMore.C06_multi_weighted_states. Qed.
 Print Assumptions C06_multi_weighted_states.
 
+(* transitive on the multigraph and weighted classes, with equal running totals at the two ends *)
+Theorem C06_multi_weighted_trans : forall (m1 m2 m3 : mgraph),
+  (TInv m1 /\ TInv m2 /\ TInv m3) \/ (UTInv m1 /\ UTInv m2 /\ UTInv m3) ->
+  graph_eqb Z.eqb (mg m1) (mg m2) = Val true -> graph_eqb Z.eqb (mg m2) (mg m3) = Val true ->
+  graph_eqb Z.eqb (mg m1) (mg m3) = Val true /\ mtot m1 = mtot m3.
+Proof. exact EqualityTrans.m_graph_eqb_trans. Qed.
+Print Assumptions C06_multi_weighted_trans.
+
 (* the pinned commit: a cleared graph compared unequal to a fresh one because of its stale labels *)
 Example C06_refuted_on_pinned :
   graph_eqb Z.eqb (fst (run true pinned (init 3) [AddEdge 0 1 7 false; ClearEdges])) (init 3) = Val false /\
